@@ -30,7 +30,16 @@ var noopPrefixes = []string{
 	"github.com/armon/go-metrics.",
 }
 
+// normLib maps the repo's expected-keeper interface methods to keeper:<Iface>.<Method>.
+func normLib(name string) string {
+	if k := keeperKey(name); k != "" {
+		return k
+	}
+	return name
+}
+
 func lookupLib(name string) LibFn {
+	name = normLib(name)
 	if f, ok := libTable[name]; ok {
 		return f
 	}
@@ -366,6 +375,8 @@ func init() {
 	reg("strconv.FormatBool", str)
 	reg("strconv.FormatInt", str)
 	reg("strconv.FormatUint", str)
+	reg("github.com/gogo/protobuf/proto.CompactTextString", str)
+	reg("gopkg.in/yaml.v2.Marshal", func(c *LibCtx, a []*Val) *Val { return tupleOf(c.sig, c.x.freshResultsAssumed(c.st, c.sig)) })
 	reg("fmt.Println", func(c *LibCtx, a []*Val) *Val { return tupleOf(c.sig, c.x.freshResultsAssumed(c.st, c.sig)) })
 	reg("fmt.Printf", func(c *LibCtx, a []*Val) *Val { return tupleOf(c.sig, c.x.freshResultsAssumed(c.st, c.sig)) })
 }
